@@ -279,6 +279,36 @@ func (C06) Gen(r *core.Rng, tier string, emit func(string)) {
 		}
 		emit(fmt.Sprintf("resolve %d %d %s G %s", d, c, fmtAdds(as), certs))
 	}
+	// directed: the highest tile is addressed by the END of a run — the last tile (in ID order) of zoom z and the
+	// first tile(s) of zoom z+1 share their content and nothing else is stored at z+1 (with deduplication one
+	// entry covers both zooms; the header's maximum zoom is z+1 all the same)
+	for zz := 0; zz < 4; zz++ {
+		x := r.Bytes(3 + r.Intn(6))
+		var rows []mbRow
+		for z := 0; z <= zz; z++ {
+			for id := base(uint(z)); id < base(uint(z)+1); id++ {
+				if id == base(uint(zz)+1)-1 || r.Chance(1, 2) {
+					_, c, y := pmtiles.IDToZxy(id)
+					b := r.Bytes(1 + r.Intn(8))
+					if id == base(uint(zz)+1)-1 {
+						b = x
+					}
+					rows = append(rows, mbRow{z, int(c), (1 << uint(z)) - 1 - int(y), b})
+				}
+			}
+		}
+		for k := 0; k <= r.Intn(3); k++ {
+			_, c, y := pmtiles.IDToZxy(base(uint(zz)+1) + uint64(k))
+			rows = append(rows, mbRow{zz + 1, int(c), (1 << uint(zz+1)) - 1 - int(y), x})
+		}
+		for i := len(rows) - 1; i > 0; i-- {
+			j := r.Intn(i + 1)
+			rows[i], rows[j] = rows[j], rows[i]
+		}
+		for d := 0; d < 2; d++ {
+			emit(fmt.Sprintf("convert %d png %s M %s G ", d, fmtRows(rows), randMbMetadata(r, "png")))
+		}
+	}
 	formats := []string{"pbf", "png", "jpg", "webp", "avif"}
 	// tiles around buffer-size boundaries (4 KiB, 64 KiB, 1 MiB, several MiB): one big blob among small ones
 	bigSizes := []int{4095, 4096, 65535, 65536, 65537, 1<<20 - 1, 1 << 20, 1<<20 + 1, 1<<20 + 4097, 3 << 20}
@@ -725,7 +755,8 @@ func (C06) Oracle(line, goOut string) string {
 			// zooms
 			if len(ra.flat) > 0 {
 				zmin, _, _ := pmtiles.IDToZxy(ra.flat[0].TileID)
-				zmax, _, _ := pmtiles.IDToZxy(ra.flat[len(ra.flat)-1].TileID)
+				lastE := ra.flat[len(ra.flat)-1]
+				zmax, _, _ := pmtiles.IDToZxy(lastE.TileID + uint64(lastE.RunLength) - 1) // the last ADDRESSED tile
 				if ra.h.MinZoom != zmin || ra.h.MaxZoom != zmax {
 					return fmt.Sprintf("header zoom range %d..%d, tiles span %d..%d", ra.h.MinZoom, ra.h.MaxZoom, zmin, zmax)
 				}
